@@ -3,6 +3,7 @@ package main
 import (
 	"fmt"
 	"go/types"
+	"reflect"
 	"regexp"
 	"sort"
 	"strings"
@@ -41,7 +42,7 @@ func namedTypes(p *Program, rel string) []*types.Named {
 
 func walkSimple(p *Program, fn *ssa.Function, names []string, inline func(f *ssa.Function, d int) bool) []Path {
 	w := NewWalker(p)
-	w.LoopFuel = 2
+	w.LoopFuel = 5
 	if inline == nil {
 		inline = func(f *ssa.Function, d int) bool { return false }
 	}
@@ -801,3 +802,137 @@ func ruleNilMaps(r *Report, p *Program) {
 }
 
 var _ = sort.Strings
+
+// ---- J6 / J7 ------------------------------------------------------------------------------
+
+func jsonKeys(st *types.Struct) map[string]string {
+	out := map[string]string{}
+	for i := 0; i < st.NumFields(); i++ {
+		tag := reflect.StructTag(st.Tag(i)).Get("json")
+		name := strings.Split(tag, ",")[0]
+		if name == "-" {
+			continue
+		}
+		if name == "" {
+			name = st.Field(i).Name()
+		}
+		out[name] = st.Field(i).Name()
+	}
+	return out
+}
+
+// structPassedTo: the struct type behind the pointer/value handed to json.Marshal / json.Unmarshal in fn.
+func structPassedTo(fn *ssa.Function, callee string, argIdx int) *types.Struct {
+	for _, b := range fn.Blocks {
+		for _, in := range b.Instrs {
+			c, ok := in.(*ssa.Call)
+			if !ok {
+				continue
+			}
+			f := c.Call.StaticCallee()
+			if f == nil || calleeName(f) != callee || argIdx >= len(c.Call.Args) {
+				continue
+			}
+			if mi, ok := c.Call.Args[argIdx].(*ssa.MakeInterface); ok {
+				t := mi.X.Type()
+				if pt, ok := t.Underlying().(*types.Pointer); ok {
+					t = pt.Elem()
+				}
+				if st, ok := t.Underlying().(*types.Struct); ok {
+					return st
+				}
+			}
+		}
+	}
+	return nil
+}
+
+func RuleJSONStructs(r *Report, p *Program) {
+	r.Rule("J6", "for every struct type with a hand-written JSON decoder: the JSON keys the decoder reads are exactly the keys the encoder writes, and each field of the value is filled from the decoded field of the same name", 3)
+	r.Rule("J7", "the firmware version is written and read with the same format", 1)
+	for _, nt := range namedTypes(p, "types") {
+		st, ok := nt.Underlying().(*types.Struct)
+		if !ok {
+			continue
+		}
+		uj := methodOf(p, nt, "UnmarshalJSON")
+		if uj == nil {
+			continue
+		}
+		name := "types." + nt.Obj().Name()
+		reader := structPassedTo(uj, "json.Unmarshal", 1)
+		if reader == nil {
+			continue // decodes through a string or another type's decoder: covered by J2/AD0
+		}
+		writer := st
+		if mj := methodOf(p, nt, "MarshalJSON"); mj != nil {
+			if ws := structPassedTo(mj, "json.Marshal", 0); ws != nil {
+				writer = ws
+			}
+		}
+		rk, wk := jsonKeys(reader), jsonKeys(writer)
+		rs, ws := map[string]bool{}, map[string]bool{}
+		for k := range rk {
+			rs[k] = true
+		}
+		for k := range wk {
+			ws[k] = true
+		}
+		bad := ""
+		if keysOf(rs) != keysOf(ws) {
+			bad = "the encoder writes the keys {" + keysOf(ws) + "}, the decoder reads {" + keysOf(rs) + "}"
+		}
+		// field wiring on the success path
+		paths := walkSimple(p, uj, []string{"dst", "in"}, nil)
+		nOK := 0
+		for _, pa := range paths {
+			if pa.Outcome != "return" || errNilness(pa, pa.Results[0]) != 1 {
+				continue
+			}
+			var final *Term
+			for _, c := range pa.SymCells {
+				if c.Name == "dst" {
+					final = c.Val
+				}
+			}
+			if final == nil || final.Op != "struct" {
+				continue
+			}
+			nOK++
+			for i, f := range final.FNames {
+				m := map[string]bool{}
+				termLeaves(final.Args[i], m)
+				okf := false
+				for leaf := range m {
+					if strings.HasSuffix(leaf, "."+f) || strings.Contains(leaf, "."+f+"[") || strings.Contains(leaf, "."+f+")") {
+						okf = true
+					}
+				}
+				if !okf && len(m) > 0 {
+					ls := []string{}
+					for l := range m {
+						ls = append(ls, l)
+					}
+					sort.Strings(ls)
+					bad = "field " + f + " is filled from " + cut(strings.Join(ls, ","), 120)
+				}
+				if len(m) == 0 && final.Args[i].Op != "mapv" {
+					// not assigned at all on the success path
+					if final.Args[i].Op == "field" && strings.HasPrefix(final.Args[i].String(), "dst.") {
+						bad = "field " + f + " is never assigned by the decoder"
+					}
+				}
+			}
+		}
+		r.Check(bad == "" && nOK > 0, "J6", name, p.Pos(uj.Pos()), fmt.Sprintf("%d keys, %d success paths", len(rk), nOK), bad)
+	}
+	if nt := lookupNamed(p, "types", "Version"); nt != nil {
+		mj, uj := methodOf(p, nt, "MarshalJSON"), methodOf(p, nt, "UnmarshalJSON")
+		if mj != nil && uj != nil {
+			w, rd := map[string]bool{}, map[string]bool{}
+			collectCallConsts(mj, "fmt.Sprintf", 0, w, 0, p)
+			collectCallConsts(uj, "fmt.Sscanf", 1, rd, 0, p)
+			r.Check(len(w) == 1 && keysOf(w) == keysOf(rd), "J7", "types.Version", p.Pos(uj.Pos()), keysOf(w), "version is written with {"+keysOf(w)+"} and read with {"+keysOf(rd)+"}")
+		}
+	}
+}
